@@ -14,7 +14,8 @@
 
    The rel=alternate branch of the Link header IS modelled (`alt` field of a response:
    the response carries `Link: <target>; rel="alternate"; type="application/ld+json"`
-   and a content type that is not JSON): loadDocumentFromHTTP then calls
+   and a content type whose media type, parameters stripped (fix 04a0982), is not
+   application/json or application/*+json): loadDocumentFromHTTP then calls
    d.LoadDocument(target) recursively, with no bound in the Go code — here recursion
    on explicit fuel, `Diverge` when it runs out.  The main correspondence stream and the
    property theorems are about histories without such a header (`alt = None`).
